@@ -1,9 +1,14 @@
 # Builds everything the checks need, offline.
+# REPO  = the cosmos/iavl tree under test (default /repo; bin/seedtest points it at a scratch worktree)
+# BUILD = where binaries go (default /verif/build)
 SHELL := /bin/bash
 export GOFLAGS := -mod=mod
 export GOPROXY := off
 export GOSUMDB := off
 export GOTOOLCHAIN := local
+REPO ?= /repo
+BUILD ?= $(CURDIR)/build
+QUIET_CGO := 2> >(grep -v 'sqlite3\|warning\|return pNew\|Select standin\|declared here\|\^\||' >&2)
 
 .PHONY: setup coq ocaml harness harness2 legacygen race clean
 
@@ -13,21 +18,27 @@ coq:
 	cd coq && coq_makefile -f _CoqProject -o Makefile.coq >/dev/null && timeout 1800 $(MAKE) -f Makefile.coq -j16
 
 ocaml: coq
-	mkdir -p build/ocaml && cd build/ocaml && timeout 300 coqc -Q ../../coq IAVL ../../coq/Extract.v \
-	  && cp ../../ocaml/driver.ml . \
+	mkdir -p $(BUILD)/ocaml && cd $(BUILD)/ocaml && timeout 300 coqc -Q $(CURDIR)/coq IAVL $(CURDIR)/coq/Extract.v \
+	  && cp $(CURDIR)/ocaml/driver.ml . \
 	  && ocamlfind ocamlopt -package str -linkpkg -w -a model.mli model.ml driver.ml -o driver
 
-harness:
-	mkdir -p build && cd harness && cp /repo/go.sum . && go build -tags verif -o ../build/harness .
+# the harness modules are built with an alternate module file so that REPO can be any checkout
+$(BUILD)/harness.mod: harness/go.mod
+	mkdir -p $(BUILD) && sed 's#=> /repo#=> $(REPO)#' harness/go.mod > $(BUILD)/harness.mod
+
+harness: $(BUILD)/harness.mod
+	sed 's#=> /repo#=> $(REPO)#' harness/go.mod > $(BUILD)/harness.mod && cp $(REPO)/go.sum $(BUILD)/harness.sum
+	cd harness && go build -modfile=$(BUILD)/harness.mod -tags verif -o $(BUILD)/harness .
+
+race: harness
+	cd harness && go build -modfile=$(BUILD)/harness.mod -race -tags verif -o $(BUILD)/harness-race .
 
 harness2:
-	mkdir -p build && cd harness2 && ./prepare.sh && go build -tags verif -o ../build/harness2 . 2> >(grep -v 'sqlite3\|warning\|return pNew\|Select standin\|declared here\|\^\||' >&2)
+	mkdir -p $(BUILD) && sed 's#=> /repo#=> $(REPO)#' harness2/go.mod > $(BUILD)/harness2.mod && sort -u $(REPO)/go.sum $(REPO)/v2/go.sum > $(BUILD)/harness2.sum
+	cd harness2 && go build -modfile=$(BUILD)/harness2.mod -tags verif -o $(BUILD)/harness2 . $(QUIET_CGO)
 
 legacygen:
-	mkdir -p build && cd legacygen && ./prepare.sh >/dev/null
-
-race:
-	cd harness && cp /repo/go.sum . && go build -race -tags verif -o ../build/harness-race .
+	mkdir -p $(BUILD) && cd legacygen && ( [ -s go.sum ] || cp /repo/cmd/legacydump/go.sum . ) && go build -o $(BUILD)/legacygen .
 
 clean:
 	rm -rf build; cd coq && rm -f *.vo *.vok *.vos *.glob .*.aux Makefile.coq Makefile.coq.conf .Makefile.coq.d
